@@ -90,7 +90,7 @@ pub fn generate(seed: u64, tier: Tier) -> History {
     let n_notes = swarm.range(1, max_notes);
     let n_future = swarm.range(0, 2);
     let with_dirs = swarm.chance(1, 3);
-    let refs_ext = if swarm.chance(1, 4) { ".md" } else { "" }.to_string();
+    let refs_ext = format!("{}{}", if swarm.chance(1, 4) { ".md" } else { "" }, *swarm.pick(&["", "", "", "|helix", "|models", "|helix+models"]));
     let marathon = swarm.chance(1, if tier == Tier::Thorough { 40 } else { 300 });
     let n_ops = if marathon { swarm.range(120, 320) } else { swarm.range(1, max_ops) };
     let poison_pct = *swarm.pick(&[0u32, 0, 0, 4, 8]);
